@@ -173,7 +173,7 @@ def _e1(pid, tier, seed, tag="e1", cap=None, **kw):
     exe, bs, err = C.build_symlift()
     if exe is None:
         return None, err
-    cap = cap or (300 if tier == "quick" else 1800)
+    cap = cap or (420 if tier == "quick" else 1800)
     e1 = E1(pid, tier, seed, cap, exe, tag=tag, **kw)
     if tier == "thorough":
         e1.lenient = lambda spec: spec_n(spec) > 64
@@ -184,7 +184,7 @@ def _filter(specs, only):
     return [s for s in specs if (only is None or only in s)]
 
 
-QUICK_EXTRA = [96, 100, 120, 127, 128, 243, 255, 256, 257]
+QUICK_EXTRA = [96, 100, 120, 127, 128, 243, 255, 256]   # 257 (Rader over 256) sits at the 300 s cap when sixteen queries run side by side: thorough only
 
 # smallest length of every structurally distinct recipe the scalar planner designs for n <= 1024
 # (signature = recipe with lengths erased but RadixN factor lists and Radix4 depths kept); computed from
@@ -223,7 +223,7 @@ def shape_lens(symlift, tier, quick_max, thorough_max=1024):
         reps = STATIC_SHAPE_REPS
     # quick: only recipes whose Rader/Bluestein stages are small (prime factors <= 47): a stage over a prime
     # of 59 and more takes minutes per query and, sixteen at a time, ran into the 300 s cap (measured)
-    out = [n for n in reps if n <= quick_max and max_prime_factor(n) <= 47]
+    out = [n for n in reps if (n <= quick_max and max_prime_factor(n) <= 7) or (n <= min(quick_max, 200) and max_prime_factor(n) <= 47)]
     if tier == "thorough":
         out += [n for n in reps if n <= thorough_max and max_prime_factor(n) <= 131]
     # lengths whose designed recipe does not even have the requested length go in regardless of size
@@ -260,7 +260,7 @@ def check_c01(pid, tier, seed, only):
     specs = _filter(specs, only)
     s = e1.run(specs, cost=e1_cost)
     res.add_e1("planned FFT == unnormalised DFT, four entry points, symbolic scratch/output contents, scratch of exactly the advertised length",
-               e1, s, {"lengths": f"{len(ns)} lengths, max {max(ns)}", "shape_representatives": f"{len(reps)} lengths: the smallest n of every structurally distinct recipe the current tree's scalar planner designs for n <= 1024 (quick: n <= 300 and largest prime factor <= 47; thorough: n <= 300 and largest prime factor <= 131)",
+               e1, s, {"lengths": f"{len(ns)} lengths, max {max(ns)}", "shape_representatives": f"{len(reps)} lengths: the smallest n of every structurally distinct recipe the current tree's scalar planner designs for n <= 1024 (quick: smooth n <= 300, and n <= 200 with largest prime factor <= 47 -- 259, 287, 296 sat at the 300 s cap; thorough: n <= 300 and largest prime factor <= 131)",
                        "recipes_with_wrong_length_found_by_the_plan_report_sweep_(native)": bad[:10], "directions": 2, "entry_points": 4, "planners": "FftPlanner::<Sym> (falls through the AVX/SSE TypeId gates to the scalar planner), FftPlannerScalar::<Sym>",
                        "per_query_cap_s": e1.cap, "M_max_bits": e1.max_m_bits})
     return res
